@@ -456,6 +456,9 @@ def merge(m1, m2, **kargs):
             if loc.base._is_vec:
                 v2 = vec([m2[mem(l, v1.size, seg, disp)] for l in loc.base.l])
                 v2 = v2.simplify(**kargs)
+                # what m1 finally holds there (a later overlapping
+                # store of m1 may have replaced some of these bytes):
+                v1 = vec([m1[mem(l, v1.size, seg, disp)] for l in loc.base.l])
             else:
                 v2 = m2[mem(loc, v1.size)]
                 # what m1 finally holds there (a later overlapping
@@ -483,6 +486,8 @@ def merge(m1, m2, **kargs):
             if loc.base._is_vec:
                 v1 = vec([m1[mem(l, v2.size, seg, disp)] for l in loc.base.l])
                 v1 = v1.simplify(**kargs)
+                # what m2 finally holds there:
+                v2 = vec([m2[mem(l, v2.size, seg, disp)] for l in loc.base.l])
             else:
                 v1 = m1[mem(loc, v2.size)]
                 # what m2 finally holds there:
